@@ -1,5 +1,6 @@
 import TsVerif.C06.Props
 import TsVerif.C06.CursorProps
+import TsVerif.C06.NodeProps
 #print axioms TsVerif.C06.child_spec
 #print axioms TsVerif.C06.flattenKids_length
 #print axioms TsVerif.C06.child_count_spec
@@ -28,3 +29,6 @@ import TsVerif.C06.CursorProps
 #print axioms TsVerif.C06.goto_descendant_spec
 #print axioms TsVerif.C06.flattenKids_fields
 #print axioms TsVerif.C06.field_name_for_child_spec
+#print axioms TsVerif.C06.raw_child_nested
+#print axioms TsVerif.C06.child_with_descendant_spec_partial
+#print axioms TsVerif.C06.parent_spec_partial
